@@ -62,8 +62,14 @@ func (o storeOp) inSpace(s string) bool {
 }
 
 // memMapField returns the memoryStore/memNode field name a map value comes from.
-func memMapField(v ssa.Value) string {
+func memMapField(v ssa.Value) string { return memMapFieldSeen(v, map[ssa.Value]bool{}) }
+
+func memMapFieldSeen(v ssa.Value, seen map[ssa.Value]bool) string {
 	for {
+		if seen[v] {
+			return ""
+		}
+		seen[v] = true
 		switch x := v.(type) {
 		case *ssa.UnOp:
 			if x.Op == token.MUL {
@@ -83,10 +89,13 @@ func memMapField(v ssa.Value) string {
 				}
 			}
 		case *ssa.Phi:
-			// all edges must agree
+			// all (non-cyclic) edges must agree
 			name := ""
 			for _, e := range x.Edges {
-				n := memMapField(e)
+				if seen[e] {
+					continue
+				}
+				n := memMapFieldSeen(e, seen)
 				if name == "" {
 					name = n
 				} else if n != name {
